@@ -106,6 +106,37 @@ def decode_alleles(tc, nodes):
         return {"error": "%s: %s" % (type(e).__name__, e)}
 
 
+SAMPLE_FORMS = ["i32", "list", "tuple", "i64", "strided", "reversed", "column", "strided_i64"]
+
+
+def samples_arg(samples, form):
+    """The same sample list in different array layouts (expected: identical result)."""
+    import numpy as np
+    k = len(samples)
+    if form == "list":
+        return list(samples)
+    if form == "tuple":
+        return tuple(samples)
+    if form == "i64":
+        return np.array(samples, dtype=np.int64)
+    if form == "strided":            # every second element of a larger int32 buffer
+        base = np.full(2 * k + 1, -7, dtype=np.int32)
+        base[0:2 * k:2] = samples
+        return base[0:2 * k:2]
+    if form == "strided_i64":
+        base = np.full(3 * k + 2, -7, dtype=np.int64)
+        base[1:3 * k + 1:3] = samples
+        return base[1:3 * k + 1:3]
+    if form == "reversed":           # negative stride
+        base = np.array(list(samples)[::-1], dtype=np.int32)
+        return base[::-1]
+    if form == "column":             # a column of a C-ordered 2-D array
+        m = np.full((k, 3), -7, dtype=np.int32)
+        m[:, 1] = samples
+        return m[:, 1]
+    return np.array(samples, dtype=np.int32)
+
+
 def permute_individuals(tc, perm):
     """Rewrite the individual table so that new row k is old row perm[k]; node references
     and parents follow.  TableCollection.simplify accepts individuals in ANY row order
@@ -139,7 +170,7 @@ def run_simplify(case):
     obs["in_alleles"] = decode_alleles(tc.copy(), samples) if not case.get("no_decode") else None
     kw = dict(opts)
     try:
-        nm = tc.simplify(np.array(samples, dtype=np.int32), record_provenance=False, **kw)
+        nm = tc.simplify(samples_arg(samples, case.get("samples_form", "i32")), record_provenance=False, **kw)
     except Exception as e:
         obs["error"] = [type(e).__name__, str(e)]
         return obs
@@ -607,6 +638,22 @@ def random_opts(rng, p_flip=0.35):
     return o
 
 
+EXTRA_BITS = [1 << 16, 1 << 19, 2, 1 << 31, (1 << 16) | (1 << 19), 0xFFFFFFFE]
+
+
+def with_variants(rng, case, p_flags=0.3, p_form=0.5):
+    """Application-defined node flag bits (simplify may only touch the sample bit) and the
+    layout of the samples argument."""
+    if rng.random() < p_flags:
+        d = dict(case["desc"])
+        d["nodes"] = [[f | (rng.choice(EXTRA_BITS) if rng.random() < 0.5 else 0), t, p, i, m]
+                      for f, t, p, i, m in d["nodes"]]
+        case = dict(case, desc=d)
+    if rng.random() < p_form:
+        case = dict(case, samples_form=rng.choice(SAMPLE_FORMS))
+    return case
+
+
 def with_ind_perm(rng, case, p=0.4):
     """With probability p: individuals in an arbitrary (non parents-first) row order."""
     n = len(case["desc"]["individuals"])
@@ -614,7 +661,7 @@ def with_ind_perm(rng, case, p=0.4):
         perm = list(range(n))
         rng.shuffle(perm)
         case = dict(case, ind_perm=perm)
-    return case
+    return with_variants(rng, case)
 
 
 def random_samples(rng, desc, maxk=4):
@@ -642,6 +689,10 @@ def shrink_case(case):
             yield dict(case, opts=o2)
     if case.get("ind_perm"):
         yield {k: v for k, v in case.items() if k != "ind_perm"}
+    if case.get("samples_form"):
+        yield {k: v for k, v in case.items() if k != "samples_form"}
+    if any(nd[0] > 1 for nd in d["nodes"]):
+        yield dict(case, desc=dict(d, nodes=[[f & 1, t, p, i, m] for f, t, p, i, m in d["nodes"]]))
     for i in range(len(S)):
         yield dict(case, samples=S[:i] + S[i + 1:])
     for i in range(len(d["mutations"]) - 1, -1, -1):
@@ -668,6 +719,38 @@ def shrink_case(case):
         yield dict(case, desc=dict(d, nodes=[[f, t, p, i, ""] for f, t, p, i, m in d["nodes"]]))
 
 
+def wide_case(rng, c):
+    """c leaves under one parent on [0,1), a random part of them under a second parent on
+    [1,2); both parents under a root; sites with mutations; (almost) all leaves chosen."""
+    P1, P2, R = c, c + 1, c + 2
+    nodes = [[1, 0, NULL, NULL, ""] for _ in range(c)] + [[0, 1, NULL, NULL, "a1"], [0, 1, NULL, NULL, ""], [0, 2, NULL, NULL, ""]]
+    moved = set(rng.sample(range(c), rng.choice([0, 1, c // 2, c - 1])))
+    edges = []
+    for u in range(c):
+        if u in moved:
+            edges += [[0, 1, P1, u, ""], [1, 2, P2, u, ""]]
+        else:
+            edges.append([0, 2, P1, u, ""])
+    edges += [[0, 2, R, P1, ""]] + ([[1, 2, R, P2, ""]] if moved else [])
+    rng.shuffle(edges)
+    sites = [[0.5, "A", ""], [1.5, "C", ""]]
+    muts = [[0, P1, "G", NULL, None, ""], [0, rng.randrange(c), "T", 0, None, ""], [1, R, "T", NULL, None, ""]]
+    if moved:
+        muts.append([1, P2, "G", 2, None, ""])
+    d = clean_desc({"L": 2, "scale": rng.choice([1, 0.5, 1 / 3]), "nodes": nodes, "edges": edges, "sites": sites,
+                    "mutations": muts, "individuals": [], "populations": [], "migrations": []})
+    how = rng.choice(["all", "all_shuffled", "all_but_one", "pow2"])
+    S = list(range(c))
+    if how == "all_shuffled":
+        rng.shuffle(S)
+    elif how == "all_but_one":
+        S.remove(rng.randrange(c))
+    elif how == "pow2":
+        S = rng.sample(range(c), min(c, rng.choice([64, 128, 256])))
+    o = random_opts(rng)
+    return with_variants(rng, {"desc": d, "samples": S, "opts": o, "stream": "wide"}, p_flags=0.3, p_form=0.7)
+
+
 class Simplify(Family):
     name = "simplify"
     workers = 8
@@ -689,7 +772,7 @@ class Simplify(Family):
         #    samples): oracle only, the Coq terms are limited to 10 nodes
         for _ in range(150 if q else 3000):
             d = clean_desc(gen_ts.random_desc(rng, max_nodes=30, max_L=12, max_sites=8, max_muts=6))
-            yield {"desc": d, "samples": random_samples(rng, d, maxk=8), "opts": random_opts(rng), "stream": "large"}
+            yield with_variants(rng, {"desc": d, "samples": random_samples(rng, d, maxk=8), "opts": random_opts(rng), "stream": "large"})
         # 2. keep_unary_in_individuals with individuals actually attached to unary nodes
         #    (deep chains: small root probability), individuals with parents
         for _ in range(200 if q else 4000):
@@ -735,6 +818,13 @@ class Simplify(Family):
             case = {"desc": d, "samples": random_samples(rng, d, maxk=5), "opts": o, "stream": "pedigree"}
             yield with_ind_perm(rng, case, 1.0)
 
+        # 5. sizes at powers of two: one parent with 63..257 children (segment queue of 64
+        #    doubling, overlapper buffer of 8 growing, buffered_children), 256+ chosen samples;
+        #    two trees: some children move to a second parent.  Oracle only.
+        widths = [64, 65, 129, 256, 257] if q else [63, 64, 65, 127, 128, 129, 255, 256, 257, 300] * 2
+        for c in widths:
+            yield wide_case(rng, c)
+
     def observe(self, case):
         return run_simplify(case)
 
@@ -748,7 +838,9 @@ class Simplify(Family):
         return len(case["samples"]) >= 2 and len(case["desc"]["edges"]) >= 2 and "out" in obs
 
     def describe(self, case, obs):
-        return {"stream": case.get("stream", "main"), "individual_rows_shuffled": bool(case.get("ind_perm")), "num_nodes_bucket": min(len(case["desc"]["nodes"]) // 5, 6),
+        return {"stream": case.get("stream", "main"), "individual_rows_shuffled": bool(case.get("ind_perm")),
+                "samples_form": case.get("samples_form", "i32"),
+                "extra_flag_bits": any(nd[0] > 1 for nd in case["desc"]["nodes"]), "num_nodes_bucket": min(len(case["desc"]["nodes"]) // 5, 6),
                 "num_samples": len(case["samples"]),
                 "options": "+".join(o for o in OPTS if case["opts"][o]) or "none",
                 "nonsample_chosen": any(not (case["desc"]["nodes"][s][0] & 1) for s in case["samples"]),
@@ -776,19 +868,82 @@ class Small(Simplify):
                         yield with_ind_perm(rng, {"desc": d, "samples": list(S), "opts": random_opts(rng, p_flip=0.3)}, 0.3)
 
 
+class Layout(Family):
+    """The `samples` argument in every array layout (list, tuple, int32 / int64, strided,
+    negative-stride and 2-D-column views), at TableCollection and TreeSequence level: tables
+    and node map must equal those for a fresh contiguous int32 copy."""
+    name = "layout"
+    workers = 4
+
+    def generate(self, rng, tier):
+        for _ in range(40 if tier == "quick" else 800):
+            d = clean_desc(gen_ts.random_desc(rng, max_nodes=10, max_L=4))
+            case = with_variants(rng, {"desc": d, "samples": random_samples(rng, d, maxk=6), "opts": random_opts(rng)},
+                                 p_flags=0.3, p_form=0.0)
+            yield case
+
+    def observe(self, case):
+        import numpy as np
+        S, kw = case["samples"], case["opts"]
+        ref = gen_ts.build_tables(case["desc"], sort=True, index=False)
+        try:
+            nm_ref = [int(x) for x in ref.simplify(np.array(S, dtype=np.int32), record_provenance=False, **kw)]
+        except Exception as e:
+            return {"ref_error": "%s: %s" % (type(e).__name__, e)}
+        b_ref = table_bytes(ref)
+        out = {}
+        for form in SAMPLE_FORMS:
+            for level in ("tc", "ts"):
+                try:
+                    tc = gen_ts.build_tables(case["desc"], sort=True, index=False)
+                    arg = samples_arg(S, form)
+                    if level == "tc":
+                        nm = tc.simplify(arg, record_provenance=False, **kw)
+                        res = tc
+                    else:
+                        ts2, nm = tc.tree_sequence().simplify(arg, map_nodes=True, record_provenance=False, **kw)
+                        res = ts2.dump_tables()
+                    b = table_bytes(res)
+                    diff = sorted(k for k in b_ref if b_ref[k] != b.get(k))
+                    if [int(x) for x in nm] != nm_ref:
+                        diff.append("node_map")
+                    # the caller's buffer must not be written to
+                    if isinstance(arg, np.ndarray) and [int(x) for x in arg] != list(S):
+                        diff.append("argument-modified")
+                    out[form + "@" + level] = diff
+                except Exception as e:
+                    out[form + "@" + level] = ["%s: %s" % (type(e).__name__, e)]
+        return {"variants": out}
+
+    def oracle(self, case, obs):
+        if "ref_error" in obs:
+            return [("refused:" + opt_key(case["opts"]), obs["ref_error"])]
+        return [("samples-layout:" + k, "result differs from the contiguous int32 call in %s" % (v[:5],))
+                for k, v in sorted(obs["variants"].items()) if v]
+
+    def nontrivial(self, case, obs):
+        return len(case["samples"]) >= 2
+
+    def describe(self, case, obs):
+        return {"num_samples": len(case["samples"])}
+
+
 class Refusal(Family):
-    """Outside the simplify-able domain: refused with a library error, tables unchanged."""
+    """Outside the simplify-able domain: refused with a library error, tables unchanged;
+    and error-then-reuse: after the refusal the cause is removed and a valid simplify on
+    the SAME TableCollection must give what a fresh object gives."""
     name = "refusal"
     workers = 4
 
     def generate(self, rng, tier):
-        for _ in range(60 if tier == "quick" else 600):
+        for _ in range(80 if tier == "quick" else 800):
             d = gen_ts.random_desc(rng, migrations=True)
             kind = rng.choice(["edge_metadata", "migrations", "duplicate", "oob", "both_unary"])
             d2 = clean_desc(d)
             n = len(d2["nodes"])
             S = random_samples(rng, d2)
-            o = dict(DEFAULTS)
+            o = random_opts(rng) if rng.random() < 0.5 else dict(DEFAULTS)
+            bad_S, bad_o = list(S), dict(o)
             if kind == "edge_metadata":
                 if not d2["edges"]:
                     continue
@@ -800,22 +955,44 @@ class Refusal(Family):
             elif kind == "duplicate":
                 if not S:
                     continue
-                S = S + [rng.choice(S)]
+                bad_S = S + [rng.choice(S)]
             elif kind == "oob":
-                S = S + [rng.choice([-1, n, n + 3])]
+                bad_S = S + [rng.choice([-1, n, n + 3, 2 ** 31 - 1, -2 ** 31])]
             else:
-                o["keep_unary"] = o["keep_unary_in_individuals"] = True
-            yield {"desc": d2, "samples": S, "opts": o, "kind": kind}
+                bad_o["keep_unary"] = bad_o["keep_unary_in_individuals"] = True
+            yield {"desc": d2, "samples": bad_S, "opts": bad_o, "kind": kind, "good_samples": S, "good_opts": o,
+                   "samples_form": rng.choice(SAMPLE_FORMS)}
 
     def observe(self, case):
         import numpy as np
         tc = gen_ts.build_tables(case["desc"], sort=True, index=False)
         before = table_bytes(tc)
         try:
-            tc.simplify(np.array(case["samples"], dtype=np.int32), record_provenance=False, **case["opts"])
+            tc.simplify(samples_arg(case["samples"], case.get("samples_form", "i32")), record_provenance=False, **case["opts"])
             return {"error": None}
         except Exception as e:
-            return {"error": [type(e).__name__, str(e)], "unchanged": table_bytes(tc) == before}
+            obs = {"error": [type(e).__name__, str(e)], "unchanged": table_bytes(tc) == before}
+        # remove the cause on the same object and on a fresh one, then simplify both
+        fresh = gen_ts.build_tables(case["desc"], sort=True, index=False)
+        for t in (tc, fresh):
+            if case["kind"] == "migrations":
+                t.migrations.clear()
+            if case["kind"] == "edge_metadata":
+                t.edges.drop_metadata()
+        S = np.array(case["good_samples"], dtype=np.int32)
+        try:
+            nm_f = [int(x) for x in fresh.simplify(S, record_provenance=False, **case["good_opts"])]
+        except Exception as e:
+            obs["reuse"] = "fresh object failed: %s" % e
+            return obs
+        try:
+            nm = [int(x) for x in tc.simplify(S, record_provenance=False, **case["good_opts"])]
+            b, bf = table_bytes(tc), table_bytes(fresh)
+            diff = sorted(k for k in bf if bf[k] != b.get(k)) + ([] if nm == nm_f else ["node_map"])
+            obs["reuse"] = diff
+        except Exception as e:
+            obs["reuse"] = "%s: %s" % (type(e).__name__, e)
+        return obs
 
     EXPECT = {"edge_metadata": "TSK_ERR_CANT_PROCESS_EDGES_WITH_METADATA",
               "migrations": "TSK_ERR_SIMPLIFY_MIGRATIONS_NOT_SUPPORTED",
@@ -830,15 +1007,17 @@ class Refusal(Family):
         out = []
         if cls != "LibraryError" or self.EXPECT[k] not in msg:
             out.append(("error-class:" + k, "raised %s: %s" % (cls, msg)))
-        # the documented early refusals leave the tables untouched; the migrations check
-        # happens at the end of simplifier_run (tables already rewritten) -- not demanded.
-        if k in ("edge_metadata", "both_unary", "duplicate", "oob") and not obs["unchanged"]:
-            out.append(("tables-modified-on-error:" + k, "tables changed although simplify failed"))
+        # a refusal must leave the (in-place) table collection as it was ...
+        if not obs["unchanged"]:
+            out.append(("tables-modified-on-error:" + k, "tables changed although simplify raised"))
+        # ... so that a later valid call behaves as on a fresh object
+        if obs.get("reuse"):
+            out.append(("reuse-after-error:" + k, "valid simplify after the refusal: %s" % (obs["reuse"][:6] if isinstance(obs["reuse"], list) else obs["reuse"],)))
         return out
 
     def describe(self, case, obs):
         return {"kind": case["kind"]}
 
 
-FAMILIES = [Simplify, Small, Refusal]
+FAMILIES = [Simplify, Small, Layout, Refusal]
 NOT_COVERED = []
